@@ -14,6 +14,7 @@ import Proofs.MarkupSuccess
 import Proofs.HistoryUndo
 import Proofs.MarkHistory
 import Proofs.InvertOk
+import Proofs.InvertOkAround
 import Proofs.OpHistory
 import Proofs.UndoStructure
 import Proofs.OpGuardSplit
@@ -2005,23 +2006,23 @@ theorem family_history_undo_run (S : Schema) (htr : compatTransB S = true) (hts 
   exact (family_history_undo S htr hts doc tr.steps tr.docs tr.doc hd hn hrep hg).1
 
 /-- **`Step.invert` does not raise on a step that applied** (oracle `invert-raises`), normal-form document.
-    Unconditional for replace, range-mark and node-mark steps.  For a replace-around step the proof covers
-    the gap between complete children (`gapClean`, what every library operation emits); for an attribute
-    step the node has to carry the attribute (`Schema.invert` models `node.attrs[name]`).
-    Full statement (not proved here for replace-around): the same without the `gapClean` hypothesis —
-    `Slice.remove_between` cannot fail on the old slice once the gap slice of the forward step was closed. -/
-theorem invert_ok_of_apply_partial (S : Schema) (s : Step) (d d' : Node) (hn : fnorm d.kids = true)
+    Unconditional for replace, range-mark and node-mark steps.  Replace-around: ordered gap, and the gap is
+    non-empty or its position is pair-aligned — an *empty* gap inside a surrogate pair is taken without
+    looking by `Node.slice(p, p)`, the forward step applies, and `Slice.remove_between` then has to cut the
+    text there and raises (`removeBetween_misaligned_fails`, Proofs/InvertOkAround.lean; on the real code
+    `ReplaceAroundStep(1, 3, 2, 2, Slice.empty, 0).invert(doc(p("😀")))` raises `UnicodeDecodeError`).
+    Attribute steps: the node carries the attribute (the property's scope). -/
+theorem invert_ok_of_apply (S : Schema) (s : Step) (d d' : Node) (hn : fnorm d.kids = true)
     (h : S.apply s d = .ok d')
     (hs : match s with
-      | .replaceAround f t gf gt _ _ _ => (f ≤ gf ∧ gf ≤ gt ∧ gt ≤ t) ∧ ∀ old, d.slice f t = .ok old →
-          gapClean old.content none (gf - f + old.openStart) (gt - f + old.openStart) = true
+      | .replaceAround f t gf gt _ _ _ => (f ≤ gf ∧ gf ≤ gt ∧ gt ≤ t) ∧ (gf < gt ∨ alignedAt d.kids gf = true)
       | .attr pos name _ => ∀ n, d.nodeAt pos = .ok (some n) → (n.attrs.find? (·.1 == name)).isSome = true
       | .docAttr name _ => (d.attrs.find? (·.1 == name)).isSome = true
       | _ => True) :
     ∃ inv, S.invert s d = .ok inv := by
   cases s with
   | replace f t sl b => exact invert_ok_replace S d d' f t sl b hn h
-  | replaceAround f t gf gt sl ins b => exact invert_ok_replaceAround S d d' f t gf gt sl ins b hn hs.1 h hs.2
+  | replaceAround f t gf gt sl ins b => exact invert_ok_replaceAround_full S d d' f t gf gt sl ins b hn hs.1 hs.2 h
   | addMark f t m => exact ⟨_, rfl⟩
   | removeMark f t m => exact ⟨_, rfl⟩
   | addNodeMark pos m => exact invert_ok_addNodeMark S d d' pos m h
